@@ -56,8 +56,13 @@ type input struct {
 	Resume string `json:"resume,omitempty"`
 	// Other (level conc): the key of the second, overlapping dial of the honest host;
 	// the deviating peer holds it and answers that dial honestly
-	Other int    `json:"other,omitempty"`
-	Class string `json:"class"`
+	Other int `json:"other,omitempty"`
+	// Prior (accept role, tls): honest servers (only key 1 exists as a running
+	// server) that connect genuinely to the router and are served BEFORE the
+	// connection under observation; PriorStays: they are still connected then
+	Prior      []int  `json:"prior,omitempty"`
+	PriorStays bool   `json:"prior_stays,omitempty"`
+	Class      string `json:"class"`
 }
 
 // C08Msg is the application message the peers exchange.
@@ -127,8 +132,8 @@ func coqCase(in *input, o *obs) string {
 		c0.Sig.Nonce = "stale"
 		ticket = fmt.Sprintf("(Some (%s, %s))", coqCert(c0, absCtx{}), lib.Bool(in.Resume == "same"))
 	}
-	return fmt.Sprintf("Case %s %s %s %s %s (Hello %s %d) %s %d (Obs %s %d %s %s %s %s)", lvl, role, coqSuite(in.Suite),
-		lib.NatList(in.Holds), ticket, coqChain(in.Chain, o.absCtx), in.HSKey, ident, in.Msgs,
+	return fmt.Sprintf("Case %s %s %s %s %s %s (Hello %s %d) %s %d (Obs %s %d %s %s %s %s)", lvl, role, coqSuite(in.Suite),
+		lib.NatList(in.Holds), lib.NatList(in.Prior), ticket, coqChain(in.Chain, o.absCtx), in.HSKey, ident, in.Msgs,
 		lib.Bool(o.Handshake), o.Dispatched, lib.NatList(o.Stamped), lib.Bool(o.Crash != ""),
 		lib.Bool(!strings.HasPrefix(o.HonestProof, "bad")), lib.Bool(o.Resumed))
 }
@@ -200,7 +205,7 @@ func defectTags(in *input) string {
 	if in.Role == "dial" {
 		named := false
 		for _, u := range c.URIs {
-			if u.Scheme == "onet-pubkey" && u.Svc == "" && u.Name.Style == "new" && u.Name.Key == in.Expected {
+			if u.Raw == nil && u.Scheme == "onet-pubkey" && u.Svc == "" && u.Name.Style == "new" && u.Name.Key == in.Expected {
 				named = true
 			}
 		}
@@ -576,6 +581,33 @@ func runTLS(in *input) (o obs) {
 		defer e.stop()
 	}
 	w.nonces["foreign"] = network.VerifC08MkNonce(w.suite)
+	if in.Role == "accept" && len(in.Prior) > 0 {
+		// history: the honest server of key 1 connects genuinely and is served first
+		for _, k := range in.Prior {
+			if k != kE {
+				return obs{Discard: "only key 1 runs as an honest server"}
+			}
+		}
+		pe := e
+		if pe == nil {
+			if pe, err = w.newHonest(kE, false); err != nil {
+				return obs{Discard: "honest holder: " + err.Error()}
+			}
+			if in.PriorStays {
+				defer pe.stop()
+			}
+		}
+		if _, err := pe.r.Send(h.si, &C08Msg{Tag: -9}); err != nil {
+			return obs{Crash: "hang: the genuine earlier connection failed: " + clip(err.Error())}
+		}
+		if h.waitDispatched(1, make(chan bool), serveDeadline) != "served" {
+			return obs{Crash: "hang: the genuine earlier connection was not served"}
+		}
+		if !in.PriorStays && e == nil {
+			pe.stop()
+		}
+		h.reset()
+	}
 	if in.Role == "accept" {
 		w.oracle = func(signer int, n []byte) ([]byte, error) { return w.relayFromDialler(e, signer, n) }
 		o = runAccept(in, w, h)
